@@ -52,6 +52,16 @@ SEEDS = {
     "C17_b": ("_incoming2/C17", "C17", ["C17"], "filenames uses len(seen) as a cursor into the sorted listing: a file created between polls whose name sorts before an already emitted path"),
     "C18_b": ("_incoming2/C18", "C18", ["C18"], "from_iterable checks stopped only after the first item: stop() between start() and the loop's first turn"),
     "C20_b": ("_incoming2/C20", "C20", ["C20", "C02"], "partition._flush resets after the await (core node mixed into DaskStream): more elements reach a partition inside the Dask segment while a flush is being gathered"),
+    "C02_c": ("_incoming3/C02", "C02", ["C02", "C08"], "partition keeps one timer handle for all keys: key= and timeout= together, two keys partially filled, one of them fills up"),
+    "C03_c": ("_incoming3/C03", "C03", ["C03"], "_emit drops the pending awaitables from its result on the deferred-release path: elements carrying ref metadata and a downstream that is still pending"),
+    "C04_c": ("_incoming3/C04", "C04", ["C04"], "map_async releases in a finally block: a mapped coroutine that raises for an element carrying a counter"),
+    "C05_c": ("_incoming3/C05", "C05", ["C05"], "_emit releases len(downstreams) counted after the loop: a downstream that detaches during the emission (slice reaching its end)"),
+    "C08_c": ("_incoming3/C08", "C08", ["C08"], "partition arms its timer only when no handle is registered and clears the handle after the awaited flush: an arrival while a timeout flush is blocked downstream"),
+    "C09_c": ("_incoming3/C09", "C09", ["C09", "C04"], "deferred release uses self.current_metadata: two batches in flight through an asynchronous consumer, the earlier one completing first"),
+    "C12_c": ("_incoming3/C12", "C12", ["C12"], "Mean.on_new updates totals/counts in place: mean over a multi-column frame with exposed state, captured state used after the original has moved on"),
+    "C15_c": ("_incoming3/C15", "C15", ["C15"], "zip hands on one tuple per arrival: a backlog left after removing the one lagging input"),
+    "C17_c": ("_incoming3/C17", "C17", ["C17"], "from_textfile seeks to the end in start(): from_end=True plus a redundant start() or a stop/append/start"),
+    "C20_c": ("_incoming3/C20", "C20", ["C20"], "Dask accumulate(with_state=True) emits its first element without metadata: no start, a holding node between accumulate and gather, counters on the inputs"),
     "C06_b": ("_incoming2/C06", "C06", ["C06", "C07"], "Mean divides by max(count, 1): a column whose prefix has rows but only NaN values (0.0 instead of NaN)"),
     "C07_b": ("_incoming2/C07", "C07", ["C07"], "Mean.on_old subtracts len(old) instead of old.count(): a NaN row that enters the window and is evicted later"),
     "C11_b": ("_incoming2/C11", "C11", ["C11"], "rolling_accumulator emits result.iloc[-len(new):]: an empty batch after a non-empty one re-emits the retained backlog"),
